@@ -45,7 +45,7 @@ CheckNoise(r) ==
       e == Parse(r.err)
       b == ParseOut(r, r.base)
       hdr == IF IsRaw(r) THEN r.hdr ELSE 0
-      streaming == r.pipeline \in {"plain", "select", "text", "csv"}
+      streaming == r.pipeline \in {"plain", "select", "text", "csv", "index"}
   IN IF r.bres # "ok" \/ ~b.ok \/ b.nerr # 0 THEN Flag("MISMATCH", r.case, "the noise-free run failed or reported an error")
      ELSE IF r.pipeline = "plain" /\ Len(b.rows) # Len(r.vals) THEN Flag("MISMATCH", r.case, "the noise-free run does not print one row per value")
      ELSE IF r.policy = "panic" /\ r.regions > 0
